@@ -72,6 +72,8 @@ def run(repo, rep):
     _log_rule(repo, rep, 'C08', 'C08.Z2')
     from ..api_pitfalls import truth_rule as _truth_rule
     _truth_rule(repo, rep, 'C08', 'C08.Z4')
+    from ..api_pitfalls import attribute_rule as _attribute_rule
+    _attribute_rule(repo, rep, 'C08', 'C08.Z5')
     from ..pitfalls import zero_rule as _zero_rule
     _zero_rule(repo, rep, 'C08', 'C08.Z3')
     dm = repo.module('dimsemessages')
